@@ -134,6 +134,19 @@ class Notes:
             fail(rh, ctx, f, node, "end lookup hint must be the start query's index, the carried cursor or 0 (all are at or "
                                    "before the end tick's governing event because longest >= 0); found " + show(h2)[:160])
 
+    def check_note_wiring(self, r: Rule) -> None:
+        """The event's note is computed from the *whole* group (every line of the tick, in any order)."""
+        ctx, f = self.ctx, self.f
+        r.inst(f"{f.qual}: note = Note.from_parsed_datas(datas)")
+        if self.report_problems(r):
+            return
+        datas = self.P(1)
+        NOTEC = ("call", ("func", f"{NOTE}.from_parsed_datas"), (), tuple(sorted({"cls": ("class", NOTE), "datas": datas}.items())))
+        got = self.parts["kw"].get("note")
+        if strip(got) != strip(NOTEC):
+            fail(r, ctx, f, self.parts["node"], "the event's lanes must be computed from the whole tick group as handed over by the grouping loop "
+                                                f"(Note.from_parsed_datas(datas)); a filtered / truncated / re-ordered view loses lane lines; found {show(got)[:200] if got else None}")
+
     # ------------------------------------------------------------------ grouping S1
     def builder(self) -> Optional[FuncInfo]:
         """The function whose result flows into note_events= of the InstrumentTrack construction."""
@@ -472,77 +485,103 @@ class Notes:
         s = ctx.summary(f)
         ps = f.params()
         d = ("param", ps[0])
+        OPENS = ("?or", ("enum", NTI, "OPEN"), ("enum", NTI, "P"))
+        # ---- the open note: its own line's length, wherever that line stands in the tick group
+        r_store.inst(f"{f.name}: open note -> the open line's own length, independent of line order")
+        open_loops = [l for l in s.loops.values() if l.kind == "for" and l.iter is not None and strip(l.iter) == d
+                      and any(e.kind == "ret" and e.loops == (l.id,) for e in s.exits)]
         first = ("sub", d, ("const", 0))
-        open_atom = ("open-first", is_atom(("?sym", "==", ("attr", first, "note_track_index"),
-                                           ("?or", ("enum", NTI, "OPEN"), ("enum", NTI, "P")))))
-        rows, unknown = decision_table(live_exits(s), [open_atom])
-        unknown_atoms(r_store, ctx, f, s, unknown, "datas[0].note_track_index == NoteTrackIndex.OPEN")
-        if unknown:
-            return
+        old_form = [e for e in s.exits if any(match(("?sym", "==", ("attr", first, "note_track_index"), OPENS), a) is not None for a, p in e.cond)]
+        if old_form:
+            fail(r_store, ctx, f, old_form[0].node, "the open note is recognised only when its N 7 line is the *first* line of the tick "
+                                                    "(datas[0]): with a forced/tap flag line written before it -- the ascending index order "
+                                                    "Moonscraper uses -- the open note's length is dropped (sustain 0) and depends on line order")
         refine_f = None
-        for val, hit in rows:
-            r_store.inst(f"{f.name}: open-first={val['open-first']}")
-            if len(hit) != 1 or hit[0].kind != "ret":
-                fail(r_store, ctx, f, f.node, f"sustain computation: {len(hit)} outcomes for {val}")
-                continue
-            e = hit[0]
-            if val["open-first"]:
-                if strip(e.value) != ("attr", first, "sustain"):
-                    fail(r_store, ctx, f, e.node, f"an open note's sustain is its own line's length (datas[0].sustain); found {show(e.value)[:120]}")
+        open_ok = False
+        if len(open_loops) == 1:
+            ol = open_loops[0]
+            el = ("elem", ol.id)
+            inl = [e for e in s.exits if e.loops and e.loops[-1] == ol.id]
+            if len(inl) == 1 and inl[0].kind == "ret" and strip(inl[0].value) == ("attr", el, "sustain"):
+                conds = [(a, p) for a, p in inl[0].cond if a[0] != "inloop"]
+                open_ok = len(conds) == 1 and conds[0][1] and match(("?sym", "==", ("attr", el, "note_track_index"), OPENS), conds[0][0]) is not None
+            for n, (a_, u_) in ol.carried.items():
+                open_ok = False
+        else:
+            # expression form: next((d for d in datas if d.idx == OPEN), None)
+            NEXT = ("call", ("builtin", "next"), (("comp", "gen", H("b"), ((H("b"), d, (("?sym", "==", ("attr", H("b"), "note_track_index"), OPENS),)),)),
+                                                  ("const", None)), ())
+            for e in s.rets():
+                b = match(("attr", NEXT, "sustain"), e.value)
+                if b is not None:
+                    open_ok = True
+        if not open_ok and not old_form:
+            fail(r_store, ctx, f, f.node, "cannot find the open-note rule `for d in datas: if d.note_track_index == OPEN: return d.sustain` (or the "
+                                          "equivalent next(...) form) in the sustain computation")
+        post = [e for e in live_exits(s) if not e.loops and not any(match(("?sym", "==", ("attr", first, "note_track_index"), OPENS), a) is not None and p
+                                                                    for a, p in e.cond)]
+        r_store.inst(f"{f.name}: lane slots")
+        if len(post) != 1 or post[0].kind != "ret":
+            fail(r_store, ctx, f, f.node, f"after the open-note rule exactly one result (the refined lane slots) is expected; found "
+                 + "; ".join(f"{e.kind} {show(e.value)[:60]}" for e in post))
+        else:
+            e = post[0]
+            extra_c = [(a, p) for a, p in e.cond if not (match(("?sym", "==", ("attr", first, "note_track_index"), OPENS), a) is not None)]
+            if extra_c:
+                fail(r_store, ctx, f, e.node, f"the lane-slot result depends on {cond_str(tuple(extra_c))[:160]}, which the specification does not mention")
+            LIST0 = ("binop", "*", ("list", (("const", None),)), ("const", 5))
+            LIST0b = ("list", (("const", None),) * 5)
+            pat = ("call", ("func", H("rf")), (), ((H("pname"), ("call", ("builtin", "tuple"), (H("L"),), ())),))
+            b = match(pat, e.value)
+            if b is None or (match(LIST0, b["L"]) is None and match(LIST0b, b["L"]) is None):
+                fail(r_store, ctx, f, e.node, f"lane lengths must be refine(tuple(five None-initialised slots)); found {show(e.value)[:200]}")
             else:
-                LIST0 = ("binop", "*", ("list", (("const", None),)), ("const", 5))
-                LIST0b = ("list", (("const", None),) * 5)
-                pat = ("call", ("func", H("rf")), (), ((H("pname"), ("call", ("builtin", "tuple"), (H("L"),), ())),))
-                b = match(pat, e.value)
-                if b is None or (match(LIST0, b["L"]) is None and match(LIST0b, b["L"]) is None):
-                    fail(r_store, ctx, f, e.node, f"lane lengths must be refine(tuple(five None-initialised slots)); found {show(e.value)[:200]}")
-                    continue
                 refine_f = ctx.prog.functions.get(b["rf"])
                 L = b["L"]
                 stores = [x for x in s.effects if x.kind == "store_sub" and x.target == L]
                 for x in s.effects:
                     if x not in stores:
                         fail(r_store, ctx, f, x.node, f"sustain computation has an extra effect {x.kind} on {show(x.target)[:60]}")
-                loops = list(s.loops.values())
+                loops = [l for l in s.loops.values() if l not in open_loops]
                 if len(stores) != 1 or len(loops) != 1:
-                    fail(r_store, ctx, f, f.node, f"exactly one loop with one slot store expected; found {len(loops)} loops, {len(stores)} stores")
-                    continue
-                st, loop = stores[0], loops[0]
-                elem = ("elem", loop.id)
-                if strip(st.key) != ("attr", ("attr", elem, "note_track_index"), "value") or strip(st.value) != ("attr", elem, "sustain"):
-                    fail(r_store, ctx, f, st.node, "slot store must be slots[d.note_track_index.value] = d.sustain for one and the same "
-                                                   f"datum d; found slots[{show(st.key)}] = {show(st.value)}")
-                for x in [x for x in s.exits if x.kind in ("break", "continue") or (x.kind in ("ret", "raise") and x.loops)]:
-                    fail(r_store, ctx, f, x.node, f"slot loop can leave early ({x.kind})")
-                # selection of lane data: filter(lambda d: d.idx.is_5_note(), datas)  or  a guard on the store
-                r_sel.inst(f"{f.name}: lane selection")
-                pred_q = None
-                it = loop.iter
-                if it is not None and it[0] == "call" and it[1] == ("builtin", "filter") and len(it[2]) == 2 and strip(it[2][1]) == d:
-                    lam = it[2][0]
-                    lf = ctx.prog.lambdas.get(lam[1]) or ctx.prog.functions.get(lam[1]) if lam[0] in ("closure", "func") else None
-                    if lf is not None:
-                        ls = ctx.ev.summary(lf)
-                        lr = ls.ret_term()
-                        lp = ("param", lf.params()[0])
-                        if lr is not None and lr[0] == "call" and lr[1][0] == "func" and [v for k, v in lr[3]] == [("attr", lp, "note_track_index")]:
-                            pred_q = lr[1][1]
-                        elif lr is not None:
-                            # inlined predicate: fold by substitution
-                            pred_q = ("term", lr, ("attr", lp, "note_track_index"))
-                elif it is not None and strip(it) == d:
-                    conds = [(a, p) for a, p in st.cond if a[0] != "inloop" and a not in [x for x, _ in hit[0].cond]]
-                    if len(conds) == 1 and conds[0][1] and conds[0][0][0] == "call" and conds[0][0][1][0] == "func":
-                        pred_q = conds[0][0][1][1]
-                if pred_q is None:
-                    fail(r_sel, ctx, f, loop.node, "lane data must be selected by a predicate on the datum's own index (filter(lambda d: "
-                                                   f"d.note_track_index.is_5_note(), datas)); found iterable {show(it)[:160] if it else None}")
+                    fail(r_store, ctx, f, f.node, f"exactly one slot loop with one slot store expected; found {len(loops)} loops, {len(stores)} stores")
                 else:
-                    ts = self.true_set(pred_q)
-                    if ts != {0, 1, 2, 3, 4}:
-                        fail(r_sel, ctx, f, loop.node, f"lane-selection predicate is true for indices {sorted(ts)}; it must be true exactly "
-                                                       f"for the five lanes 0..4 (flag and open lines never contribute a length; every "
-                                                       f"lane must)")
+                    st, loop = stores[0], loops[0]
+                    elem = ("elem", loop.id)
+                    if strip(st.key) != ("attr", ("attr", elem, "note_track_index"), "value") or strip(st.value) != ("attr", elem, "sustain"):
+                        fail(r_store, ctx, f, st.node, "slot store must be slots[d.note_track_index.value] = d.sustain for one and the same "
+                                                       f"datum d; found slots[{show(st.key)}] = {show(st.value)}")
+                    for x in [x for x in s.exits if (x.kind in ("break", "continue") or x.kind in ("ret", "raise")) and x.loops and x.loops[-1] == loop.id]:
+                        fail(r_store, ctx, f, x.node, f"slot loop can leave early ({x.kind})")
+                    r_sel.inst(f"{f.name}: lane selection")
+                    pred_q = None
+                    it = loop.iter
+                    if it is not None and it[0] == "call" and it[1] == ("builtin", "filter") and len(it[2]) == 2 and strip(it[2][1]) == d:
+                        lam = it[2][0]
+                        lf = (ctx.prog.lambdas.get(lam[1]) or ctx.prog.functions.get(lam[1])) if lam[0] in ("closure", "func") else None
+                        if lf is not None:
+                            ls = ctx.ev.summary(lf)
+                            lr = ls.ret_term()
+                            lp = ("param", lf.params()[0])
+                            if lr is not None and lr[0] == "call" and lr[1][0] == "func" and [v for k, v in lr[3]] == [("attr", lp, "note_track_index")]:
+                                pred_q = lr[1][1]
+                            elif lr is not None:
+                                pred_q = ("term", lr, ("attr", lp, "note_track_index"))
+                    elif it is not None and strip(it) == d:
+                        conds = [(a, p) for a, p in st.cond if a[0] != "inloop" and (a, p) not in e.cond]
+                        if len(conds) == 1 and conds[0][1] and conds[0][0][0] == "call" and conds[0][0][1][0] == "func":
+                            pred_q = conds[0][0][1][1]
+                        elif len(conds) == 1 and conds[0][1]:
+                            pred_q = ("term", conds[0][0], ("attr", elem, "note_track_index"))
+                    if pred_q is None:
+                        fail(r_sel, ctx, f, loop.node, "lane data must be selected by a predicate on the datum's own index (filter(lambda d: "
+                                                       f"d.note_track_index.is_5_note(), datas)); found iterable {show(it)[:160] if it else None}")
+                    else:
+                        ts = self.true_set(pred_q)
+                        if ts != {0, 1, 2, 3, 4}:
+                            fail(r_sel, ctx, f, loop.node, f"lane-selection predicate is true for indices {sorted(ts)}; it must be true exactly "
+                                                           f"for the five lanes 0..4 (flag and open lines never contribute a length; every "
+                                                           f"lane must)")
         if refine_f is not None:
             self.check_refine(r_refine, refine_f)
 
